@@ -225,7 +225,11 @@ pub fn gen_container(rng: &mut Rng, records: &[Rec], allow_multi_member: bool, a
     c
 }
 
-pub fn gen_io(rng: &mut Rng) -> IoSpec {
+/// `allow_eintr`: only the reader property (C06) injects EINTR.  The batch
+/// pipelines sniff the format through `BufRead::fill_buf`, which (legally) hands
+/// an interrupted read to the caller, and kmertools reports that as "Invalid
+/// stream"; no listed property speaks about it, so it is not injected there.
+pub fn gen_io(rng: &mut Rng, allow_eintr: bool) -> IoSpec {
     if rng.chance(1, 3) {
         return IoSpec::off();
     }
@@ -235,7 +239,11 @@ pub fn gen_io(rng: &mut Rng) -> IoSpec {
         mode: rng
             .pick(&["", "", "full", "one", "small", "pow2", "boundary", "boundary"])
             .to_string(),
-        eintr_permille: *rng.pick(&[0u32, 0, 50, 300]),
+        eintr_permille: if allow_eintr {
+            *rng.pick(&[0u32, 0, 50, 300])
+        } else {
+            0
+        },
     }
 }
 
